@@ -123,6 +123,8 @@ def range_check_concrete(net, interp):
 
 
 def worker(args):
+    if 'kernel' in args:
+        return fp_worker(args)
     args = dict(args)
     args['extra_sym'] = range_check
     args['extra_concrete'] = range_check_concrete
@@ -133,7 +135,12 @@ def run(tier, seed):
     t0 = time.time()
     cases = build_cases(tier)
     items = [{'case': c, 'timeout_ms': 8000 if tier == 'quick' else 30000, 'max_paths': 4000,
-              'budget_s': 60 if tier == 'quick' else 400} for c in cases]
+              'budget_s': 28 if tier == 'quick' else 400} for c in cases]
+    fp_kernels = ['param_16(x)', 'param_32(x)', 'param_16(percent_to_raw(x))', 'param_32(time_raw(x))',
+                  'param_16(logical hue -> raw), 0<=h<360', 'ColorMatrix._standardize_raw([x]*4)']
+    if tier == 'quick':
+        fp_kernels = [k for k in fp_kernels if 'percent' not in k]       # ~2 min of bit-blasting: thorough only
+    items = [{'kernel': k, 'timeout_ms': 40000 if tier == 'quick' else 600000} for k in fp_kernels] + items
     results, skipped = report.run_pool(worker, items, budget_s=common.tier_budget(tier, 80, 900))
     return report.finish(
         PROP, tier, seed, 'exploration', results, skipped,
@@ -141,7 +148,8 @@ def run(tier, seed):
              '(|x| <= 1e12) or integers; every feasible path through units/param_helper/VM/wrappers is explored and the '
              'transmitted numbers are checked against the documented formulas (nearest integer, clamped) and against the protocol ranges',
         assumptions=common.SCRIPT_ASSUMPTIONS[:5] + [
-            'rgb exactness is claimed for red/green/blue in [0,100]; outside that range only range-safety of what is transmitted'],
+            'rgb exactness is claimed for red/green/blue in [0,100]; outside that range only range-safety of what is transmitted',
+            'IEEE part: six clamp-and-round kernels run on z3 Float64 proxies (round-to-nearest-even) over every double; hue with 0<=h<360 (float % not modelled)'],
         bounds={'magnitude': '|x| <= 1e12', 'modes': 3, 'command_kinds': len(commands())},
         t0=t0, technique='bounded symbolic execution of the real conversion and transmission code (proxy objects, z3 LRA/NRA with exact round-half-even)')
 
@@ -149,3 +157,90 @@ def run(tier, seed):
 def replay(v):
     print(v['message'])
     return 0
+
+
+# ---- IEEE-754 range lemmas: the clamp-and-round kernels on every double ------------------------
+def fp_worker(args):
+    import z3
+    from bardolph.controller import units as units_mod
+    from bardolph.controller.color_matrix import ColorMatrix
+    from bardolph.lib import param_helper
+    from vlib import symfp, symx, world
+    name = args['kernel']
+    res = report.WorkResult('ieee %s' % name)
+    world.start_function_trace()
+    res.sites.add('ieee-range')
+    kernels = {
+        'param_16(x)': (lambda x: param_helper.param_16(x), 65535),
+        'param_32(x)': (lambda x: param_helper.param_32(x), 0xffffffff),
+        'param_16(percent_to_raw(x))': (lambda x: param_helper.param_16(units_mod._pct_to_raw(x)), 65535),
+        'param_32(time_raw(x))': (lambda x: param_helper.param_32(units_mod.time_raw(x)), 0xffffffff),
+        'param_16(logical hue -> raw), 0<=h<360': (lambda x: param_helper.param_16(units_mod.logical_to_raw([x, 50.0, 50.0, 2700])[0]), 65535),
+        'ColorMatrix._standardize_raw([x]*4)': (lambda x: ColorMatrix._standardize_raw([x, x, x, x])[0], 65535),
+    }
+    fn, hi = kernels[name]
+    hue = 'hue' in name
+
+    def harness(ctx):
+        x = symfp.SymFP(z3.FP('x', symfp.F64))
+        if hue:
+            ctx.assume(z3.And(z3.fpGEQ(x.e, z3.FPVal(0.0, symfp.F64)), z3.fpLT(x.e, z3.FPVal(360.0, symfp.F64))))
+            symfp.SymFP.__mod__ = lambda s, o: s            # h % 360.0 == h on [0, 360)
+        else:
+            symfp.SymFP.__mod__ = lambda s, o: (_ for _ in ()).throw(symx.Abort('float %'))
+        saved = units_mod.__dict__.get('float')
+        units_mod.float = symfp.fp_float
+        try:
+            try:
+                return x, fn(x), None
+            except (ValueError, OverflowError, ZeroDivisionError) as ex:
+                return x, None, ex
+        finally:
+            units_mod.float = saved if saved is not None else symx.sym_float
+    for ctx, out in symx.explore(harness, max_paths=200, timeout_ms=args['timeout_ms'], stats=res.stats):
+        if isinstance(out, symx.Abort):
+            res.out_of_bound += 1
+            continue
+        x, r, exc = out
+        res.nontrivial += 1
+        if exc is not None:
+            verdict, model = ctx.prove(False, timeout_ms=args['timeout_ms'])
+            what = 'raises %s: %s' % (type(exc).__name__, exc)
+        else:
+            if isinstance(r, symfp.SymFP):
+                ok = z3.And(z3.Not(z3.fpIsNaN(r.e)), z3.fpGEQ(r.e, z3.FPVal(0.0, symfp.F64)), z3.fpLEQ(r.e, z3.FPVal(float(hi), symfp.F64)),
+                            z3.fpEQ(r.e, z3.fpRoundToIntegral(symfp.RNE, r.e)))
+            else:
+                ok = z3.BoolVal(isinstance(r, int) and 0 <= r <= hi)
+            verdict, model = ctx.prove(ok, timeout_ms=args['timeout_ms'])
+            what = 'result not an integer in 0..%d' % hi
+        if verdict == 'unsat':
+            res.reached.add('ieee-range')
+        elif verdict == 'unknown':
+            res.inconclusive.append('ieee %s' % name)
+        else:
+            res.reached.add('ieee-range')
+            xv = model.eval(x.e, model_completion=True)
+            try:
+                import struct
+                f = float(eval(str(xv).replace('+oo', 'float("inf")').replace('-oo', '-float("inf")').replace('NaN', 'float("nan")'))) \
+                    if not z3.is_fprm(xv) else 0.0
+            except Exception:
+                f = None
+            # replay on the real double
+            msg = None
+            if f is not None:
+                world.uninstall_real_mode()
+                try:
+                    try:
+                        rr = fn(f)
+                        if not (isinstance(rr, int) and 0 <= rr <= hi):
+                            msg = '%s(%r) = %r' % (name, f, rr)
+                    except Exception as ex:
+                        msg = '%s(%r) raises %s' % (name, f, ex)
+                finally:
+                    world.install_real_mode()
+            res.violation('ieee|%s|%s' % (name, what[:30]), 'for the double %s: %s %s\n  replay: %s' % (xv, name, what, msg), inputs={'x': str(xv)}, replayed=msg is not None)
+    res.sample({'kernel': name, 'claim': 'for every IEEE double (incl. infinities, NaN, subnormals) the kernel returns an integer in 0..%d or the stated exception never occurs' % hi})
+    res.functions = world.functions_seen()
+    return res
